@@ -1087,7 +1087,12 @@ impl Patch {
 
                 match merges.into_keys().collect::<Vec<_>>().as_slice() {
                     [] => {
-                        // None of the revisions met the quorum.
+                        // None of the revisions met the quorum. If the patch was merged,
+                        // a delegate has since moved their merge elsewhere, and the
+                        // quorum no longer stands.
+                        if matches!(self.state, State::Merged { .. }) {
+                            self.state = State::Open { conflicts: vec![] };
+                        }
                     }
                     [(revision, commit)] => {
                         // Patch is merged.
